@@ -60,7 +60,7 @@ def check_flat(h, scn, rep):
     n = int(env.action_space.n)
     if n != len(real) or n != int(scn.get_action_space_size()) or n != len(want):
         raise Failure("C11:flat-size", f"action_space.n={n}, len(actions)={len(real)}, get_action_space_size()={scn.get_action_space_size()}, expected {len(want)}")
-    for i in (0, n - 1, n // 2):
+    for i in (range(n) if n <= 4000 else list(range(0, n, 7)) + [n - 1]):
         if describe(env.action_space.get_action(i)) != real[i]:
             raise Failure("C11:get-action", f"get_action({i}) is not actions[{i}]")
     env2 = sources.make_env(scn)
